@@ -436,7 +436,7 @@ static void judge_model(vh_ctx *c, const gcase *gp, size_t nlv)
   /* (7) re-projection of the training X: PLSScorePredictor(training, a) = first a columns of T, every a <= nlv */
   for (a = 1; a <= nlv; a++) {
     matrix *ts;
-    initMatrix(&ts);
+    ts = drv_out_matrix(c, n, a, (unsigned)a);
     PLSScorePredictor(g.mx, m, a, ts);
     if (!shape_is(ts, n, a)) { vh_fail(c, "PLSScorePredictor|shape", "%zux%zu for n=%zu nlv=%zu", ts->row, ts->col, n, a); DelMatrix(&ts); break; }
     for (j = 0; j < a; j++) {
@@ -453,7 +453,7 @@ static void judge_model(vh_ctx *c, const gcase *gp, size_t nlv)
   /* (8) PLSYPredictor(T, a) = block a of the recalculated responses (reference values), every a <= nlv */
   for (a = 1; a <= nlv; a++) {
     matrix *yp; ld worst = 0;
-    initMatrix(&yp);
+    yp = drv_out_matrix(c, n, ny, 20u + (unsigned)a);
     PLSYPredictor(m->xscores, m, a, yp);
     if (!shape_is(yp, n, ny)) { vh_fail(c, "PLSYPredictor|shape", "%zux%zu for n=%zu ny=%zu", yp->row, yp->col, n, ny); DelMatrix(&yp); break; }
     for (j = 0; j < ny; j++) for (i = 0; i < n; i++) {
@@ -467,8 +467,8 @@ static void judge_model(vh_ctx *c, const gcase *gp, size_t nlv)
   /* (9) PLSYPredictorAllLV(training) = recalculated_y, latent-variable major; optional score output = T */
   {
     matrix *yall, *ts = NULL; int want_ts = vh_coin(c, 0.5);
-    initMatrix(&yall);
-    if (want_ts) initMatrix(&ts);
+    yall = drv_out_matrix(c, n, ny * nlv, 41);
+    if (want_ts) ts = drv_out_matrix(c, n, nlv, 42);
     PLSYPredictorAllLV(g.mx, m, ts, yall);
     if (!shape_is(yall, n, ny * nlv)) vh_fail(c, "PLSYPredictorAllLV|shape", "%zux%zu for n=%zu ny=%zu nlv=%zu", yall->row, yall->col, n, ny, nlv);
     else {
